@@ -952,7 +952,9 @@ def compile_comprehension(compiler, expr, root, parts, final):
                         return Result(stmts=[asty.Pass(expr)])
                     if ends_with_unpack:
                         ends_with_unpack = False
-                        to_loop = Result(expr =
+                        # Keep any statements of the unpacked form, as
+                        # in `(lfor x xs (do (f) #* x))`.
+                        to_loop = (key if dict_unpack else elt) + Result(expr =
                             # Call `key.items()` so we yield (key,
                             # value) pairs instead of just keys.
                             asty.Call(key,
